@@ -21,6 +21,8 @@
 //!                       the last event (older events may only have left with a file deleted by retention)
 //!   rfs-outside         something appeared outside the set's directory
 //!   rfs-over-size-limit a file with more than one record is larger than the size limit
+//!   rfs-not-json        a line of a member file is not one JSON object (C13 "one valid JSON object per line for rolling
+//!                       files" on the real filesystem: re-opened files, appended records)
 //!   rfs-foreign-touched a planted entry is gone, or the file the symlinks point at changed (C11 "never reads, appends
 //!                       to or deletes a file that is not its own, whatever else shares the directory")
 
@@ -197,7 +199,13 @@ fn run(line: &str) -> String {
             if size > 0 && content.len() > size && content.iter().filter(|b| **b == b'\n').count() > 1 {
                 fails.insert("rfs-over-size-limit");
             }
+            if !content.is_empty() && !content.ends_with(b"\n") {
+                fails.insert("rfs-not-json");
+            }
             for rec in String::from_utf8_lossy(content).split('\n').filter(|r| !r.is_empty()) {
+                if !(rec.starts_with("{\"mdl\":\"rfs\",") && rec.ends_with("x\"}") && rec.matches("\"mdl\":").count() == 1) {
+                    fails.insert("rfs-not-json");
+                }
                 match rec.find("\"marker\":\"").map(|i| &rec[i + 10..]).and_then(|t| t.split('"').next()) {
                     Some(m) => seen.push(m.to_string()),
                     None => {
